@@ -20,34 +20,37 @@ Open Scope nat_scope.
 
 (* ---- _retain_refs / _release_refs ------------------------------------------------------------------------------ *)
 (* strong form: the generated helper returns (no KeyError) in exactly the model's world *)
+(* a loop that carries no local and whose iteration never raises is a fold over the worlds *)
+Lemma wfor_fold {A} (f : world -> A -> world) (body : A -> unit -> W unit) :
+  (forall a w, body a tt w = WRet tt (f w a)) -> forall l w, wfor l tt body w = WRet tt (fold_left f l w).
+Proof.
+  intros H. induction l as [|a l IH]; intros w; cbn [wfor fold_left]; [reflexivity|].
+  unfold wbind. rewrite H. apply IH.
+Qed.
+Lemma wbind_run {A B} (m : W A) (k : A -> W B) w a w' : m w = WRet a w' -> wbind m k w = k a w'.
+Proof. intros H. unfold wbind. rewrite H. reflexivity. Qed.
+
+(* the helper is its loop (whatever the shape of one iteration: guard, inverted guard with pass, guard with continue,
+   a local for m['ref'], ...): one iteration is decided by splitting on `'ref' in m` *)
+Ltac refs_loop f :=
+  match goal with |- context [wfor ?l tt ?body] =>
+    let H := fresh "H" in
+    assert (H : forall a w0, body a tt w0 = WRet tt (f w0 a))
+      by (intros a w0; cbv [wbind wret wlift wmod mdi_has_ref mdi_ref rc_retain rc_release negb];
+          destruct (mref a); reflexivity);
+    first [ erewrite wbind_run by (apply wfor_fold, H) | rewrite (wfor_fold f body H) ]
+  end; reflexivity.
+
 Theorem bridge_run_retain_refs : forall m n w, gen_body__retain_refs m n w = WRet tt (retain w m n).
 Proof.
-  unfold gen_body__retain_refs, retain.
-  induction m as [|i m IH]; intros n w; cbn [wfor fold_left].
-  - reflexivity.
-  - unfold wbind, wret in *. unfold mdi_has_ref, mdi_ref, rc_retain, wlift, wmod.
-    destruct (mref i); cbn.
-    + specialize (IH n (retain1 w (mid i) n)).
-      destruct (wfor m tt _ (retain1 w (mid i) n)) as [[] w'|w' s'] eqn:E; [|discriminate].
-      exact IH.
-    + specialize (IH n w).
-      destruct (wfor m tt _ w) as [[] w'|w' s'] eqn:E; [|discriminate].
-      exact IH.
+  intros m n w. unfold gen_body__retain_refs, retain.
+  refs_loop (fun (w : world) (i : mdi) => if mref i then retain1 w (mid i) n else w).
 Qed.
 
 Theorem bridge_run_release_refs : forall m n w, gen_body__release_refs m n w = WRet tt (release w m n).
 Proof.
-  unfold gen_body__release_refs, release.
-  induction m as [|i m IH]; intros n w; cbn [wfor fold_left].
-  - reflexivity.
-  - unfold wbind, wret in *. unfold mdi_has_ref, mdi_ref, rc_release, wlift, wmod.
-    destruct (mref i); cbn.
-    + specialize (IH n (release1 w (mid i) n)).
-      destruct (wfor m tt _ (release1 w (mid i) n)) as [[] w'|w' s'] eqn:E; [|discriminate].
-      exact IH.
-    + specialize (IH n w).
-      destruct (wfor m tt _ w) as [[] w'|w' s'] eqn:E; [|discriminate].
-      exact IH.
+  intros m n w. unfold gen_body__release_refs, release.
+  refs_loop (fun (w : world) (i : mdi) => if mref i then release1 w (mid i) n else w).
 Qed.
 
 (* the literal form *)
@@ -167,16 +170,18 @@ Proof.
   intros Hbody. rewrite wrun_rd, wrun_tail. apply (emit_loop _ _ _ _ _ _ body Hbody). reflexivity.
 Qed.
 
-(* one iteration as the translator produced it *)
+(* one iteration as the translator produced it: whatever its shape, unfold every bind, split on what the call returned
+   (and on the uninterpreted `type(r) is list`), and compare *)
 Ltac emit_body :=
   let d := fresh "d" in let s := fresh "s" in let w := fresh "w" in
-  intros d s w; unfold wbind at 1, wcall at 1;
+  intros d s w; cbv [wbind wcall];
   match goal with |- context [call_update ?e ?g ?dp ?n d w ?x ?m] =>
     destruct (call_update e g dp n d w x m) as [?w2 ?s2] end;
+  cbv beta iota zeta;
   match goal with |- context [status_go ?s2] => destruct (status_go s2); [|reflexivity] end;
-  cbv beta zeta;
-  match goal with |- context [aw_is_list ?r] => destruct (aw_is_list r) | _ => idtac end;
-  cbv [wbind wret aws_extend aws_append]; rewrite ?bridge_run_release_refs; reflexivity.
+  repeat match goal with |- context [aw_is_list ?r] => destruct (aw_is_list r) end;
+  cbv [wret aws_extend aws_append negb]; cbv beta iota zeta;
+  rewrite ?bridge_run_release_refs; reflexivity.
 
 (* ---- Stream._emit ------------------------------------------------------------------------------------------------ *)
 (* general form: any emit of the downstreams *)
